@@ -37,6 +37,10 @@ def proved_tier(run, pid, cfg, tier, collect=None):
         obls, info = results[key]
         locked = lock.get(key)
         fn = contract.module + '.' + contract.name
+        if getattr(contract, 'fragment', None):
+            fn += ' [fragment only: `%s` .. `%s`; its entry state is assumed]' % contract.fragment
+        if getattr(contract, 'stop_at', None):
+            fn += ' [prefix only, up to `%s`]' % contract.stop_at
         if info['status'] != 'ok':
             msg = 'pyvc: %s: %s' % (key, info['status'])
             if locked:
